@@ -374,6 +374,11 @@ func (vfs *MemFS) link(oldname, newname string) (done bool, err error) {
 		return false, nil
 	}
 
+	if nParent.removed {
+		// the directory of newname was removed since it was looked up.
+		return true, &os.LinkError{Op: op, Old: oldname, New: newname, Err: vfs.err.NoSuchDir}
+	}
+
 	if !nParent.checkPermission(avfs.OpenWrite, vfs.User()) {
 		return true, &os.LinkError{Op: op, Old: oldname, New: newname, Err: vfs.err.PermDenied}
 	}
@@ -471,6 +476,14 @@ func (vfs *MemFS) Mkdir(name string, perm fs.FileMode) error {
 	}
 
 	parent.mu.Lock()
+
+	if parent.removed {
+		// the directory was removed since it was looked up.
+		parent.mu.Unlock()
+
+		return &fs.PathError{Op: op, Path: name, Err: vfs.err.NoSuchDir}
+	}
+
 	defer parent.mu.Unlock()
 
 	if !parent.checkPermission(avfs.OpenWrite|avfs.OpenLookup, vfs.User()) {
@@ -510,6 +523,13 @@ func (vfs *MemFS) MkdirAll(path string, perm fs.FileMode) error {
 	}
 
 	parent.mu.Lock()
+
+	if parent.removed {
+		// the directory was removed since it was looked up.
+		parent.mu.Unlock()
+
+		return &fs.PathError{Op: op, Path: path, Err: vfs.err.NoSuchDir}
+	}
 
 	if vfs.isNotExist(err) && parent.children[pi.Part()] != nil {
 		// the first missing element was created by someone else since it was looked up : start again.
@@ -584,6 +604,13 @@ func (vfs *MemFS) OpenFile(name string, flag int, perm fs.FileMode) (avfs.File, 
 		}
 
 		parent.mu.Lock()
+
+		if parent.removed {
+			// the directory was removed since it was looked up.
+			parent.mu.Unlock()
+
+			return (*MemFile)(nil), &fs.PathError{Op: op, Path: name, Err: vfs.err.NoSuchDir}
+		}
 
 		if om&avfs.OpenWrite == 0 || !parent.checkPermission(avfs.OpenWrite|avfs.OpenLookup, vfs.User()) {
 			parent.mu.Unlock()
@@ -901,6 +928,11 @@ func (vfs *MemFS) rename(oldpath, newpath string) (done bool, err error) {
 		return false, nil
 	}
 
+	if nParent.removed {
+		// the directory of newpath was removed since it was looked up.
+		return true, &os.LinkError{Op: op, Old: oldpath, New: newpath, Err: vfs.err.NoSuchDir}
+	}
+
 	if !oParent.checkPermission(avfs.OpenWrite, vfs.User()) {
 		return true, &os.LinkError{Op: op, Old: oldpath, New: newpath, Err: vfs.err.PermDenied}
 	}
@@ -1051,6 +1083,14 @@ func (vfs *MemFS) Symlink(oldname, newname string) error {
 	}
 
 	parent.mu.Lock()
+
+	if parent.removed {
+		// the directory was removed since it was looked up.
+		parent.mu.Unlock()
+
+		return &os.LinkError{Op: op, Old: oldname, New: newname, Err: vfs.err.NoSuchDir}
+	}
+
 	defer parent.mu.Unlock()
 
 	if !parent.checkPermission(avfs.OpenWrite, vfs.User()) {
